@@ -137,7 +137,50 @@ Section Reset.
   Qed.
 End Reset.
 
+(* ------------------------------------------------------------------ reset: the memory's clocked write is disabled while
+   i_rst = 1 (memory.sv qualifies it with !i_rst), whatever the state and the fetched byte *)
+Definition memrst_check (d : design) : bool :=
+  wires_ordered (wires d) && not_wire d "i_rst" && first_wire_is_fetch d &&
+  forallb (fun k => forallb (fun w => veqb (norm (sub2 n_fdata "i_rst" k 1) (fst (snd w))) (C 0)) (mem_writes d)) bytes256.
+
+Lemma fold_no_write (l : list (string * (Z * (Z * Z)))) : Forall (fun w => fst (snd w) = 0) l ->
+  forall m, fold_left apply_write l m = m.
+Proof.
+  induction 1 as [|w r Hw F IH]; intros m; [reflexivity|]. cbn [fold_left]. rewrite <- (IH m) at 2. f_equal.
+  unfold apply_write. rewrite Hw. destruct (String.eqb (fst w) n_mem); reflexivity.
+Qed.
+
+Section MemReset.
+  Variable d : design.
+  Hypothesis CHK : memrst_check d = true.
+  Variables (s : rstate) (xv : nat -> Z).
+  Let e := cycle_env d 1 xv s.
+
+  Theorem no_write_in_reset : fold_left apply_write (map (evalw e) (mem_writes d)) (r_mem s) = r_mem s.
+  Proof.
+    pose proof CHK as K. unfold memrst_check in K. repeat (apply andb_prop in K; let H := fresh "H" in destruct K as [K H]).
+    assert (Hr : var e "i_rst" = 1).
+    { unfold e, cycle_env. rewrite env_wires_var_other by (apply negb_true_iff; exact H1). reflexivity. }
+    assert (Hf : 0 <= var e n_fdata < 256).
+    { pose proof (cycle_env_wire_values d 1 xv s K) as V. fold e in V. cbv zeta in V.
+      unfold first_wire_is_fetch in H0. destruct (wires d) as [|w r]; [discriminate|]. apply andb_prop in H0. destruct H0 as [P1 P2].
+      apply String.eqb_eq in P1. cbn [map] in V. injection V as V _. unfold evalp in V. cbn [fst snd] in V.
+      rewrite <- P1, V, (exp_ok_sound e nosub _ _ (nosub_agrees e) P2). unfold x_fetch. cbn [eval]. change (2 ^ 8) with 256.
+      apply Z.mod_pos_bound. lia. }
+    rewrite forallb_forall in H. specialize (H _ (in_bytes256 _ Hf)). rewrite forallb_forall in H.
+    apply fold_no_write. apply Forall_forall. intros w Hw. apply in_map_iff in Hw. destruct Hw as [w0 [<- Hin]].
+    unfold evalw. cbn [fst snd]. specialize (H _ Hin). apply veqb_sound in H.
+    rewrite <- (norm_sound e _ (fst (snd w0)) (sub2_agrees e n_fdata "i_rst" _ _ eq_refl Hr)). rewrite H. reflexivity.
+  Qed.
+End MemReset.
+
 (* ------------------------------------------------------------------ the generated design of this run *)
+Lemma memrst_check_true : memrst_check RtlHex.design = true.
+Proof. vm_compute. reflexivity. Qed.
+Theorem rtl_no_write_in_reset : forall s xv,
+  fold_left apply_write (map (evalw (cycle_env RtlHex.design 1 xv s)) (mem_writes RtlHex.design)) (r_mem s) = r_mem s.
+Proof. intros s xv. exact (no_write_in_reset _ memrst_check_true s xv). Qed.
+
 Lemma reset_check_true : reset_check RtlHex.design = true.
 Proof. vm_compute. reflexivity. Qed.
 Theorem rtl_reset_clears : forall s xv, let s' := cycle_gen RtlHex.design 1 xv s in r_pc s' = 0 /\ r_areg s' = 0 /\ r_breg s' = 0 /\ r_oreg s' = 0.
